@@ -78,7 +78,7 @@ def main(tier, replay=None):
                 # the group-table monitor on the authentic messages only (fabric 1)
                 ops = fl[2].split(",")
                 ifl = impl[key].split(" ")[2] if len(impl[key].split(" ")) > 2 else ""
-                auth = [(o, ifl[i:i + 1]) for i, o in enumerate(ops) if o.startswith("a:")]
+                auth = [(o, ifl[i:i + 1]) for i, o in enumerate(ops) if o[:2] in ("a:", "A:", "b:", "B:")]
                 if auth and all(x in ("0", "1") for _, x in auth):
                     f.write("G y%s %s %s\n" % (fl[1], ",".join("1:" + o[2:] for o, _ in auth), "".join(x for _, x in auth)))
                     ymap["G y" + fl[1]] = key
@@ -92,16 +92,16 @@ def main(tier, replay=None):
             continue
         ops = cl.split(" ")[2].split(",")
         ifl = impl[key].split(" ")[2] if len(impl[key].split(" ")) > 2 else ""
-        bad = [i for i, o in enumerate(ops) if (not o.startswith("a:") and ifl[i:i + 1] != "x") or (o.startswith("a:") and ifl[i:i + 1] not in ("0", "1"))]
+        bad = [i for i, o in enumerate(ops) if (o[:2] not in ("a:", "A:", "b:", "B:") and ifl[i:i + 1] != "x") or (o[:2] in ("a:", "A:", "b:", "B:") and ifl[i:i + 1] not in ("0", "1"))]
         if bad:
             mon_viol += 1
             if mon_viol <= 3:
                 i = bad[0]
                 c.violation("group-rx-path", "\n".join([
                     "property C04 fails on the real group receive path (TransportRunner::decode_packet, one fabric, one group key):",
-                    "case (a = authentic, f/t/w = does not authenticate; kind:source node:counter): " + cl,
+                    "case (a = authentic, A = authentic and the sender's ephemeral session stays, f/t/w = does not authenticate; kind:source node:counter): " + cl,
                     "implementation (1 accepted, 0 duplicate, x refused): " + ifl,
-                    "operation %d (%s): %s" % (i, ops[i], "a message that does not authenticate was not refused" if not ops[i].startswith("a:") else "an authentic message was refused with an error other than duplicate"),
+                    "operation %d (%s): %s" % (i, ops[i], "a message that does not authenticate was not refused" if ops[i][:2] not in ("a:", "A:", "b:", "B:") else "an authentic message was refused with an error other than duplicate"),
                     "replay: bin/check C04 quick --replay <file containing the case line>"]))
     def hist_len(key):
         if key in ymap:
@@ -117,7 +117,7 @@ def main(tier, replay=None):
                     c.violation("group-rx-path", "\n".join([
                         "property C04 fails on the real group receive path: among the AUTHENTIC messages of a sender a counter was accepted twice, "
                         "or a counter newer than everything accepted from that sender was rejected (e.g. because a forged message had moved the sender's window):",
-                        "case (a = authentic, f/t/w = does not authenticate; kind:source node:counter): " + case_by_key[yk],
+                        "case (a = authentic, A = authentic and the sender's ephemeral session stays, f/t/w = does not authenticate; kind:source node:counter): " + case_by_key[yk],
                         "implementation (1 accepted, 0 duplicate, x refused): " + impl[yk].split(" ")[2],
                         "replay: bin/check C04 quick --replay <file containing the case line>"]))
             continue
